@@ -602,6 +602,22 @@ fn fds_main(env: &mut Env<VS>, args: Vec<Field>) -> BuiltinFuture<'_> {
     })
 }
 
+/// `nb TAG`: traces the descriptors of the calling shell whose open file description has
+/// O_NONBLOCK set (the shell sets the flag around its own reads and writes and must clear it again).
+fn nb_main(env: &mut Env<VS>, args: Vec<Field>) -> BuiltinFuture<'_> {
+    Box::pin(async move {
+        let tag = args.first().map(|f| f.value.clone()).unwrap_or_default();
+        let state = RUN.with(|r| r.borrow().state.clone()).unwrap();
+        let pid = pid_of(env);
+        let list: Vec<i32> = {
+            let st = state.borrow();
+            st.processes.get(&pid).map(|p| p.fds().iter().filter(|(_, b)| b.open_file_description.borrow().is_nonblocking()).map(|(fd, _)| fd.0).collect()).unwrap_or_default()
+        };
+        trace(pid, format!("nb {tag} {list:?}"));
+        ExitStatus::SUCCESS.into()
+    })
+}
+
 pub fn pattern_byte(i: usize) -> u8 {
     b'a' + (i % 23) as u8
 }
@@ -867,6 +883,7 @@ pub fn register_probes(env: &mut Env<VS>) {
     env.builtins.insert("args", bi(args_main));
     env.builtins.insert("snap", bi(snap_main));
     env.builtins.insert("fds", bi(fds_main));
+    env.builtins.insert("nb", bi(nb_main));
     env.builtins.insert("gen", bi(gen_main));
     env.builtins.insert("sink", bi(sink_main));
     env.builtins.insert("cat", bi(cat_main));
